@@ -77,6 +77,7 @@ def monitorsWant (c : Spec.Ctx) (obsDelta : Int) (j : Journal) (fatalHere : Bool
   (if Spec.C07.orderHolds c j then [] else ["C07|order"]) ++
   (if Spec.C07.reuseHolds c j then [] else ["C07|reuse"]) ++
   ((Spec.C10.untaintBad c j).map (fun t => "C10|" ++ t)) ++
+  (if fatalHere then [] else (Spec.C10.holdbackBad c obsDelta j).map (fun t => "C10|" ++ t)) ++
   (if Spec.C07.amountHolds c want j then [] else ["C07|amount", "C05|compose"]) ++
   (if Spec.C07.amountHolds c (want + 1000000000) j then [] else ["C17|a SetDesiredCapacity of a scale-up does not raise the desired size the cloud holds (request not current + d)"]) ++
   (if fatalHere then [] else (Spec.C07.shortfall c want j).flatMap (fun t => ["C07|remainder-not-requested: " ++ t, "C05|brought-too-few: " ++ t] ++
